@@ -22,11 +22,14 @@ Inductive stmt : Set :=
 | SBreak
 | SContinue
 | SReturn (l : label)                         (* l: the (traced) evaluation of the return value *)
-(* try / with: given their exception-free semantics below (atoms do not raise in this language): the
-   handlers never run, the else clause runs when the body completes, the finally clause always runs.
-   Jumps OUT OF a finally clause (which would override a pending jump) and `raise` have no rule: a
-   run that reaches them is stuck and the theorems say nothing about it; they are carried through the
-   pass models so that these can be compared structurally with the real passes. *)
+(* try / with / raise.  Exceptions come from `raise` statements only (atoms do not raise in this
+   language).  When the body of a try raises, the next decision selects the handler that matches (its
+   index; an index past the last handler = no handler matches and the exception propagates) -- an
+   over-approximation of matching by exception type, which the passes do not touch.  The else clause runs
+   when the body completes normally, the finally clause always runs.  A finally clause that does not
+   complete normally (which would override the pending jump or exception) has no rule: a run that
+   reaches that is stuck and the theorems say nothing about it.  A context manager that swallows the
+   exception is not modelled (an exception leaves the with statement). *)
 | STry (body : block) (handlers : blocks) (orelse final : block)
 | SWith (l : label) (body : block)
 | SRaise (l : label)
@@ -39,11 +42,19 @@ Fixpoint bapp (a b : block) : block :=
 Definition store := flag -> bool.
 Definition upd (s : store) (f : flag) (v : bool) : store := fun g => if Nat.eqb g f then v else s g.
 
-Inductive outcome : Set := ONormal | OBrk | OCont | ORet | OFuel | OStuck.
+Inductive outcome : Set := ONormal | OBrk | OCont | ORet | ORaise | OFuel | OStuck.
 
 Definition decisions := list nat.
 Definition dhead (d : decisions) : bool := match d with [] => false | c :: _ => negb (Nat.eqb c 0) end.
 Definition dtail (d : decisions) : decisions := match d with [] => [] | _ :: r => r end.
+Definition dnat (d : decisions) : nat := match d with [] => 0 | c :: _ => c end.
+
+(* the handler an exception is dispatched to *)
+Fixpoint hsel (hs : blocks) (n : nat) : option block :=
+  match hs with
+  | HNil => None
+  | HCons b r => match n with 0 => Some b | S m => hsel r m end
+  end.
 
 (* value of a test, the user tests it evaluated, remaining decisions *)
 Fixpoint ceval (c : cond) (s : store) (d : decisions) : bool * list label * decisions :=
@@ -84,11 +95,15 @@ Fixpoint exec_stmt (n : nat) (st : stmt) (s : store) (d : decisions) {struct n} 
           let '(tr, o, s', d') := exec_block n' orelse s d1 in (tc ++ tr, o, s', d')
     | SWith l body =>
         let '(tr, o, s', d') := exec_block n' body s d in (l :: tr, o, s', d')
-    | STry body _ orelse final =>
+    | STry body hs orelse final =>
         let '(tr1, ob, s1, d1) := exec_block n' body s d in
         let '(tr2, o2, s2, d2) :=
           match ob with
           | ONormal => exec_block n' orelse s1 d1
+          | ORaise => match hsel hs (dnat d1) with
+                      | Some h => exec_block n' h s1 (dtail d1)
+                      | None => ([], ORaise, s1, dtail d1)
+                      end
           | _ => ([], ob, s1, d1)
           end in
         match o2 with
@@ -101,7 +116,7 @@ Fixpoint exec_stmt (n : nat) (st : stmt) (s : store) (d : decisions) {struct n} 
           | _ => (tr1 ++ tr2 ++ tr3, OStuck, s3, d3)       (* a jump out of finally: outside the semantics *)
           end
         end
-    | SRaise _ => ([], OStuck, s, d)
+    | SRaise l => ([l], ORaise, s, d)
     end
   end
 with exec_block (n : nat) (b : block) (s : store) (d : decisions) {struct n} : res :=
@@ -139,9 +154,9 @@ Inductive run_stmt : stmt -> store -> decisions -> list label -> outcome -> stor
 | RWhileBrk c body orelse s d tc d1 tr s1 d2 :
     ceval c s d = (true, tc, d1) -> run_block body s d1 tr OBrk s1 d2 ->
     run_stmt (SWhile c body orelse) s d (tc ++ tr) ONormal s1 d2
-| RWhileRet c body orelse s d tc d1 tr s1 d2 :
-    ceval c s d = (true, tc, d1) -> run_block body s d1 tr ORet s1 d2 ->
-    run_stmt (SWhile c body orelse) s d (tc ++ tr) ORet s1 d2
+| RWhileOut c body orelse s d tc d1 tr o s1 d2 :
+    ceval c s d = (true, tc, d1) -> run_block body s d1 tr o s1 d2 -> (o = ORet \/ o = ORaise) ->
+    run_stmt (SWhile c body orelse) s d (tc ++ tr) o s1 d2
 | RWith l body s d tr o s' d' :
     run_block body s d tr o s' d' -> run_stmt (SWith l body) s d (l :: tr) o s' d'
 | RTryN body hs orelse final s d tr1 s1 d1 tr2 o2 s2 d2 tr3 s3 d3 :
@@ -149,9 +164,19 @@ Inductive run_stmt : stmt -> store -> decisions -> list label -> outcome -> stor
     run_block final s2 d2 tr3 ONormal s3 d3 ->
     run_stmt (STry body hs orelse final) s d (tr1 ++ tr2 ++ tr3) o2 s3 d3
 | RTryJ body hs orelse final s d tr1 ob s1 d1 tr3 s3 d3 :
-    run_block body s d tr1 ob s1 d1 -> ob <> ONormal ->
+    run_block body s d tr1 ob s1 d1 -> ob <> ONormal -> ob <> ORaise ->
     run_block final s1 d1 tr3 ONormal s3 d3 ->
     run_stmt (STry body hs orelse final) s d (tr1 ++ tr3) ob s3 d3
+| RTryU body hs orelse final s d tr1 s1 d1 tr3 s3 d3 :        (* no handler matches *)
+    run_block body s d tr1 ORaise s1 d1 -> hsel hs (dnat d1) = None ->
+    run_block final s1 (dtail d1) tr3 ONormal s3 d3 ->
+    run_stmt (STry body hs orelse final) s d (tr1 ++ tr3) ORaise s3 d3
+| RTryH body hs orelse final s d tr1 s1 d1 h tr2 oh s2 d2 tr3 s3 d3 :   (* handler h runs *)
+    run_block body s d tr1 ORaise s1 d1 -> hsel hs (dnat d1) = Some h ->
+    run_block h s1 (dtail d1) tr2 oh s2 d2 ->
+    run_block final s2 d2 tr3 ONormal s3 d3 ->
+    run_stmt (STry body hs orelse final) s d (tr1 ++ tr2 ++ tr3) oh s3 d3
+| RRaise l s d : run_stmt (SRaise l) s d [l] ORaise s d
 with run_block : block -> store -> decisions -> list label -> outcome -> store -> decisions -> Prop :=
 | RNil s d : run_block BNil s d [] ONormal s d
 | RConsN st r s d tr s1 d1 tr2 o2 s2 d2 :
